@@ -125,6 +125,20 @@ theorem sink_duplicate_keeps_ack (arr : List (Nat × Nat)) (k : Nat) (hk : k + 1
   subst this
   exact ⟨n, hn, hm⟩
 
+/-- **Once exactly the bytes `[0, N)` are in, the ACK is `N`** — for every non-empty arrival sequence (any segmentation,
+order, overlap, duplication) whose ranges cover every byte below `N` and none from `N` on, the last ACK is the flow
+size `N`: the sink tells the sender "all received" exactly when all is received. -/
+theorem sink_all_received (arr : List (Nat × Nat)) (N : Nat) (hne : arr ≠ [])
+    (hcov : ∀ b, Covers (rangesOf arr) b ↔ b < N) :
+    (acks [] arr)[arr.length - 1]? = some (.ok N) := by
+  have l : 0 < arr.length := List.length_pos_iff.mpr hne
+  obtain ⟨n, hn, pn⟩ := sink_ack_prefix arr (arr.length - 1) (by omega)
+  rw [show arr.length - 1 + 1 = arr.length by omega, List.take_length] at pn
+  have hN : IsPrefix (rangesOf arr) N :=
+    ⟨fun b hb => (hcov b).mpr hb, fun hc => Nat.lt_irrefl N ((hcov N).mp hc)⟩
+  rw [isPrefix_unique pn hN] at hn
+  exact hn
+
 /-- non-vacuity: two orders (one with a duplicate) of the same three segments, evaluated -/
 example : (acks [] [(0, 5), (10, 5), (5, 5)])[2]? = some (.ok 15) ∧
     (acks [] [(5, 5), (10, 5), (0, 5), (0, 5)])[3]? = some (.ok 15) := by decide
